@@ -1,9 +1,10 @@
 /-
 C17 — Pub/sub delivers exactly to matching member subscriptions and leaks no state.
 
-Only property theorems (and their non-vacuity examples) live here.
+Only property theorems (and their non-vacuity examples) live here; helper lemmas are in
+`PubSub/Lemmas.lean`, the specification vocabulary in `PubSub/Spec.lean` and `PubSub/Rule.lean`.
 -/
-import AnySyncModel.Generated.PubSubConsts
+import AnySyncModel.PubSub.Lemmas
 
 namespace AnySync.PubSub
 open Generated.PubSub
@@ -11,5 +12,122 @@ open Generated.PubSub
 /-- obligation on the regenerated fragment: the extractor recognised the constant block and the
 guard shapes of `commonspace/pubsub/topic.go` -/
 theorem shape_ok : shapeOk = true := by decide
+
+/-! ## topic / pattern syntax -/
+
+/-- `splitTopic` is never empty (so `Add` never dereferences a nil node) and is inverted by joining
+the segments with `/`; it yields at most `maxSegments + 1` segments. -/
+theorem split_join (s : String) :
+    splitTopic s ≠ [] ∧ joinTopic (splitTopic s) = s ∧ (splitTopic s).length ≤ maxSegments + 1 :=
+  ⟨splitTopic_ne_nil s, joinTopic_splitTopic s, length_splitN _ _ _⟩
+
+/-- on strings within the segment bound the capped split is the plain `/`-split -/
+theorem split_eq_splitAll (s : String) (h : (splitAll s).length ≤ maxSegments + 1) :
+    splitTopic s = splitAll s := splitN_eq_splitAll _ _ _ h
+
+/-- **validate_topic_spec.** `ValidateTopic` accepts exactly the topic grammar: non-empty, at most
+`maxTopicLen` bytes, at most `maxSegments` segments, no empty segment, no `*` / `>` character. -/
+theorem validate_topic_spec (s : String) : validateTopic s = true ↔ TopicGrammar s := by
+  simp only [validateTopic, validTopicSegs, Bool.and_eq_true, validateSegments_iff, TopicGrammar]
+  constructor
+  · rintro ⟨hs, ha⟩
+    refine ⟨hs, ?_⟩
+    rw [← split_eq_splitAll s (by have := hs.few; omega)]
+    simpa using ha
+  · rintro ⟨hs, ha⟩
+    refine ⟨hs, ?_⟩
+    rw [split_eq_splitAll s (by have := hs.few; omega)]
+    simpa using ha
+
+/-- **validate_pattern_spec.** `ValidatePattern` accepts exactly the pattern grammar: the same shape;
+wildcards only as whole segments, `>` only in the last position. -/
+theorem validate_pattern_spec (s : String) : validatePattern s = true ↔ PatternGrammar s := by
+  simp only [validatePattern, validPatternSegs, Bool.and_eq_true, validateSegments_iff, PatternGrammar]
+  constructor
+  · rintro ⟨hs, ha⟩
+    refine ⟨hs, ?_⟩
+    have he := split_eq_splitAll s (by have := hs.few; omega)
+    rw [he] at ha
+    exact (patternSegsOk_iff _).mp ha
+  · rintro ⟨hs, ha⟩
+    refine ⟨hs, ?_⟩
+    rw [split_eq_splitAll s (by have := hs.few; omega)]
+    exact (patternSegsOk_iff _).mpr ha
+
+example : validateTopic "acc/online/A0" = true ∧ validateTopic "a//b" = false ∧ validateTopic "a/*" = false := by decide
+example : validatePattern "a/*/>" = true ∧ validatePattern "a/>/b" = false ∧ validatePattern "a*" = false := by decide
+
+/-- **owner_spec.** `TopicOwner` is the last segment of a topic whose first segment is the `acc`
+namespace and which has at least two segments, and empty otherwise. -/
+theorem owner_spec (s : String) :
+    topicOwner s = (if 2 ≤ (splitTopic s).length ∧ (splitTopic s).head? = some accNamespace
+                    then (splitTopic s).getLast?.getD "" else "") := by
+  simp only [topicOwner, ownerOfSegs]
+  cases h : splitTopic s with
+  | nil => simp
+  | cons a r =>
+    cases r with
+    | nil => simp
+    | cons b r' =>
+      by_cases ha : a = accNamespace <;> simp [ha]
+
+example : topicOwner "acc/online/A0" = "A0" ∧ topicOwner "acc" = "" ∧ topicOwner "chat/acc/A0" = "" := by decide
+
+/-! ## the trie against the matching rule -/
+
+/-- **match_exact.** For every trie built by `Add`/`Remove` (of arbitrary strings) and every topic
+string, `Match` returns exactly the registered patterns (refcount > 0) whose segments match the
+topic's segments under the rule (`*` one segment, trailing `>` one or more), each exactly once. -/
+theorem match_exact (t : Trie) (h : t.Reachable) (topic : String) :
+    (t.matchTopic topic).Nodup ∧
+    ∀ p, p ∈ t.matchTopic topic ↔ (t.count p > 0 ∧ segMatches (splitTopic p) (splitTopic topic) = true) := by
+  refine ⟨nodup_matchLevel _ [] _ h.wf, fun p => ?_⟩
+  simp only [Trie.matchTopic, Trie.count, mem_matchLevel, refsAt_pos_iff]
+  constructor
+  · rintro ⟨q, n, hq, hr, hp, hm⟩
+    have hs : splitTopic p = q := by simpa [hp] using pat_of_nodeAt h.wf hq hr
+    exact ⟨⟨n, by rw [hs]; exact hq, hr⟩, by rw [hs]; exact hm⟩
+  · rintro ⟨⟨n, hq, hr⟩, hm⟩
+    have hs : splitTopic n.pat = splitTopic p := by simpa using pat_of_nodeAt h.wf hq hr
+    exact ⟨splitTopic p, n, hq, hr, splitTopic_injective hs, hm⟩
+
+example : (((Trie.empty.add "a/*").1.add "a/>").1.add "b").1.matchTopic "a/b" = ["a/>", "a/*"] := by decide
+example : segMatches ["a", ">"] ["a"] = false ∧ segMatches ["a", ">"] ["a", "b", "c"] = true := by decide
+
+/-- **trie_abs (insert).** `Add` raises the refcount of exactly its own pattern by one. -/
+theorem trie_abs_add (t : Trie) (p q : String) :
+    (t.add p).1.count q = t.count q + (if q = p then 1 else 0) := by
+  simp only [Trie.add, Trie.count, refsAt_addLevel _ _ (splitTopic_ne_nil p)]
+  by_cases h : q = p
+  · simp [h]
+  · have : splitTopic q ≠ splitTopic p := fun h' => h (splitTopic_injective h')
+    simp [h, this]
+
+/-- **trie_abs (erase).** `Remove` lowers the refcount of exactly its own pattern by one
+(truncated at zero: removing an absent pattern changes nothing). -/
+theorem trie_abs_remove (t : Trie) (p q : String) :
+    (t.remove p).1.count q = t.count q - (if q = p then 1 else 0) := by
+  simp only [Trie.remove, Trie.count, refsAt_removeLevel]
+  by_cases h : q = p
+  · simp [h]
+  · have : splitTopic q ≠ splitTopic p := fun h' => h (splitTopic_injective h')
+    simp [h, this]
+
+/-- **trie_abs (return values).** `Add` reports "new" exactly on the 0 → 1 transition. -/
+theorem trie_add_new_iff (t : Trie) (p : String) : (t.add p).2 = true ↔ t.count p = 0 := by
+  simp only [Trie.add, Trie.count]
+  exact addLevel_new_iff p (splitTopic p) (splitTopic_ne_nil p) t.root
+
+/-- **trie_abs (pruning).** In a reachable trie no unreferenced childless node survives: if no
+pattern is registered any more, the trie is structurally empty. -/
+theorem trie_pruned (t : Trie) (h : t.Reachable) (hz : ∀ q : List String, refsAt t.root q = 0) :
+    t.root = [] := by
+  apply Classical.byContradiction
+  intro hne
+  obtain ⟨q, hq⟩ := exists_ref_of_ne_nil h.wf hne
+  have := hz q
+  omega
+
+example : ((Trie.empty.add "a/b/c").1.remove "a/b/c").1.root = [] := by decide
 
 end AnySync.PubSub
